@@ -2,6 +2,7 @@ package main
 
 import (
 	"fmt"
+	"go/types"
 
 	"golang.org/x/tools/go/ssa"
 )
@@ -398,5 +399,188 @@ func ruleCtorCleanup(c *Checker) {
 		}
 		c.decide(bad == "", "LIFE", pr[0]+"|a failed handshake closes the connection", ctor.Pos(), "every return without a connection after the handshake call passes Close()",
 			pr[0]+" can give up after a failed handshake ("+bad+") without Close(): the attempt's context is never cancelled, so its reader goroutine and the relay stream bound to that context stay behind (the next attempt finds the mailbox occupied)")
+	}
+}
+
+// ruleConnDataGuard (PUBLISH, C04): ConnData is shared between the handshake that publishes the
+// remote key / auth payload, the per-RPC metadata reader and the next connection attempt (SID,
+// pattern). Two lock-discipline obligations, both over all interleavings:
+//  (a) every access to a field that is written after construction happens with ConnData.mu held
+//      (exclusively for a write) - otherwise a reader can see a torn or stale payload;
+//  (b) no application callback stored in ConnData is invoked while mu may be held - the callback
+//      is free to read the ConnData again, which would block the handshake for ever after the
+//      peer has already completed.
+func ruleConnDataGuard(c *Checker, rule string) {
+	w := c.w
+	cd := w.Named("mailbox.ConnData")
+	fMu := w.Field("mailbox.ConnData.mu")
+	if cd == nil || fMu == nil {
+		c.anchorFail("mailbox.ConnData / ConnData.mu")
+		return
+	}
+	st, _ := cd.Underlying().(*types.Struct)
+	var funcs []*ssa.Function
+	roots := map[*ssa.Function]bool{}
+	for _, fn := range w.Funcs {
+		if w.pkgShort(fn) == targetMbox {
+			funcs = append(funcs, fn)
+			roots[fn] = true
+		}
+	}
+	li := w.computeLocks(funcs, roots)
+	allocates := func(fn *ssa.Function) bool {
+		found := false
+		allInstrs(fn, func(in ssa.Instruction) {
+			if al, ok := in.(*ssa.Alloc); ok && namedOf(deref(al.Type())) == cd {
+				found = true
+			}
+		})
+		return found
+	}
+	nAcc, nCb := 0, 0
+	for i := 0; i < st.NumFields(); i++ {
+		f := st.Field(i)
+		if f == fMu {
+			continue
+		}
+		if _, isFunc := f.Type().Underlying().(*types.Signature); isFunc {
+			// (b) calls through the callback field
+			for _, fn := range funcs {
+				allInstrs(fn, func(in ssa.Instruction) {
+					ci, ok := in.(ssa.CallInstruction)
+					if !ok || ci.Common().IsInvoke() || !isLoadOfField(ci.Common().Value, f) {
+						return
+					}
+					nCb++
+					_, held := li.MayAt(in)[fMu]
+					c.decide(!held, rule, fmt.Sprintf("ConnData.%s|called without ConnData.mu in %s", f.Name(), fnName(fn)), instrPos(in),
+						"the application callback runs with no ConnData lock held",
+						"the application callback "+f.Name()+" can run while ConnData.mu is held: a callback that reads the ConnData again (RemoteKey, SID, HandshakePattern) blocks for ever - this side neither completes nor aborts the handshake while the peer has completed")
+				})
+			}
+			continue
+		}
+		mutable := false
+		for _, s := range w.Stores(f) {
+			if !allocates(s.Parent()) {
+				mutable = true
+			}
+		}
+		if !mutable {
+			continue
+		}
+		for _, fa := range w.FieldAddrs(f) {
+			fn := fa.Parent()
+			if allocates(fn) || fa.Referrers() == nil {
+				continue
+			}
+			for _, r := range *fa.Referrers() {
+				mode, have := li.At(r)[fMu]
+				_, isStore := r.(*ssa.Store)
+				okk := have && (!isStore || mode == lockExcl)
+				nAcc++
+				kind := "read"
+				if isStore {
+					kind = "write"
+				}
+				c.decide(okk, rule, fmt.Sprintf("ConnData.%s|%s under ConnData.mu in %s", f.Name(), kind, fnName(fn)), instrPos(r),
+					"guarded by ConnData.mu",
+					fmt.Sprintf("ConnData.%s is %s in %s without ConnData.mu held%s: it is written by a later handshake on the same long-lived object while RPCs and the next connection attempt read it - a torn or stale remote key / auth payload", f.Name(), map[bool]string{true: "written", false: "read"}[isStore], fnName(fn), map[bool]string{true: " exclusively", false: ""}[isStore]))
+			}
+		}
+	}
+	if nAcc < 4 || nCb < 2 {
+		c.fail(rule, "ConnData|guarded accesses", 0, fmt.Sprintf("expected the accessors of remoteKey/authData and the two callbacks, found %d accesses / %d callback calls", nAcc, nCb))
+	}
+}
+
+// ruleReadAtomic (RDC-2): NoiseGrpcConn.Read decides "is a tail pending?", reads and decrypts the
+// next record and stores/advances the tail. These steps form one critical section of nextMsgMtx:
+// once the mutex is released inside Read, no later access to nextMsg (and no ReadMessage) is
+// reachable. Otherwise two overlapping Reads both go to the transport and the second one
+// overwrites the tail the first one left - bytes vanish from the stream without an error.
+func ruleReadAtomic(c *Checker, rule string) {
+	w := c.w
+	fn := w.Func("(*mailbox.NoiseGrpcConn).Read")
+	fNext := w.Field("mailbox.NoiseGrpcConn.nextMsg")
+	fMtx := w.Field("mailbox.NoiseGrpcConn.nextMsgMtx")
+	if fn == nil || fNext == nil || fMtx == nil {
+		c.anchorFail("(*mailbox.NoiseGrpcConn).Read / nextMsg / nextMsgMtx")
+		return
+	}
+	var touches []ssa.Instruction
+	allInstrs(fn, func(in ssa.Instruction) {
+		if fa, ok := in.(*ssa.FieldAddr); ok && structFieldOf(fa) == fNext {
+			touches = append(touches, in)
+		}
+		if call, ok := in.(*ssa.Call); ok && staticCalleeIs(call.Common(), "mailbox", "Machine", "ReadMessage") {
+			touches = append(touches, in)
+		}
+	})
+	bad := ""
+	nLock := 0
+	allInstrs(fn, func(in ssa.Instruction) {
+		call, ok := in.(*ssa.Call)
+		if !ok {
+			return
+		}
+		f, acq, _, ok := lockOp(call.Common())
+		if !ok || f != fMtx {
+			return
+		}
+		if acq {
+			nLock++
+			return
+		}
+		for _, t := range touches {
+			if pathExists(in, t, nil) {
+				bad = "released at " + w.pos(instrPos(in)) + ", the tail / transport is used again at " + w.pos(instrPos(t))
+			}
+		}
+	})
+	c.decide(bad == "" && nLock >= 1 && len(touches) >= 3, rule, "(*mailbox.NoiseGrpcConn).Read|check, receive and store are one critical section", fn.Pos(),
+		"nextMsgMtx is not released before the last use of the tail",
+		"NoiseGrpcConn.Read gives up nextMsgMtx in the middle ("+bad+"): two overlapping Reads both fetch a record and the second overwrites the unread tail of the first - bytes of the stream are lost without an error")
+}
+
+// ruleMachineReplacedFirst (HSK-ERR, C03): a handshake entry point of the long-lived
+// NoiseGrpcConn installs the new (keyless) Machine *before* it runs the handshake, and runs the
+// handshake on that Machine. If the old Machine stayed in place until success, a rejected
+// handshake would leave the object with the previous session's live traffic keys on the
+// transport of the rejected peer ("neither side ends up with session keys").
+func ruleMachineReplacedFirst(c *Checker, rule string) {
+	w := c.w
+	fNoise := w.Field("mailbox.NoiseGrpcConn.noise")
+	if fNoise == nil {
+		c.anchorFail("mailbox.NoiseGrpcConn.noise")
+		return
+	}
+	n := 0
+	for _, name := range []string{"(*mailbox.NoiseGrpcConn).ClientHandshake", "(*mailbox.NoiseGrpcConn).ServerHandshake"} {
+		fn := w.Func(name)
+		if fn == nil {
+			c.anchorFail(name)
+			continue
+		}
+		allInstrs(fn, func(in ssa.Instruction) {
+			call, ok := in.(*ssa.Call)
+			if !ok || !staticCalleeIs(call.Common(), "mailbox", "Machine", "DoHandshake") {
+				return
+			}
+			n++
+			dominated := false
+			for _, st := range w.Stores(fNoise) {
+				if st.Parent() == fn && instrDominates(st, call) {
+					dominated = true
+				}
+			}
+			onField := isLoadOfField(call.Common().Args[0], fNoise)
+			c.decide(dominated && onField, rule, fnName(fn)+"|the new Machine is installed before the handshake runs", instrPos(call),
+				"c.noise is replaced first and DoHandshake runs on c.noise",
+				fnName(fn)+" runs the handshake before (or without) replacing c.noise: after a rejected handshake the connection object still holds the previous session's traffic keys, now on the rejected peer's transport")
+		})
+	}
+	if n < 2 {
+		c.fail(rule, "handshake entry points|DoHandshake calls", 0, fmt.Sprintf("expected 2 DoHandshake calls, found %d", n))
 	}
 }
